@@ -424,30 +424,38 @@ theorem decodeLoop_front (app : App) (hsm : app.instrs.length < 250) (ctx : Mode
           refine ⟨hch, hlen, rfl, [⟨i, pcOf h0, pcOf h0 + ctx.sequenceID * 1000#32⟩], inside_add _ _ _, Or.inr ⟨rfl, [], _, rfl, hj, fun r hr => by cases hr⟩⟩
         | false =>
           simp only [hj, Bool.false_eq_true, if_false] at hr
-          obtain ⟨t1, t2, t3, added, t4, t5⟩ := ih _ du' _ inBus' _ outBus' hch hlen
-            (by rw [inside_add]
-                simp only [List.length_append, List.length_cons, List.length_nil]
-                refine ⟨h0 + 1, a1', ?_, Or.inl (by omega), ?_, ?_, ?_, ?_⟩
-                · rw [hin', a2]; congr 1; omega
-                · rw [hin']; omega
-                · rw [hin']; intro hc; have := a5 hc; omega
-                · rw [hin']; intro hc; have := a6 hc; omega
-                · rw [hin']; intro hc; have := a7 hc; omega)
-            hr
-          refine ⟨t1, t2, t3, ⟨i, pcOf h0, pcOf h0 + ctx.sequenceID * 1000#32⟩ :: added, ?_, ?_⟩
-          · rw [t4, inside_add, List.append_assoc]; rfl
-          · rcases t5 with ⟨u1, u2, u3⟩ | ⟨u1, pre, j, u2, u3, u4⟩
-            · refine Or.inl ⟨?_, u2, ?_⟩
-              · rw [u1]; split <;> rfl
-              · intro r hr
+          have hpcs' : Pcs app (k + (outBus.add ⟨i, pcOf h0, pcOf h0 + ctx.sequenceID * 1000#32⟩ c).inside.length) fu
+              ({ inBus with queue := q } : BufferedBus Word).inside 0 := by
+            rw [inside_add]
+            simp only [List.length_append, List.length_cons, List.length_nil]
+            refine ⟨h0 + 1, a1', ?_, Or.inl (by omega), ?_, ?_, ?_, ?_⟩
+            · rw [hin', a2]; congr 1; omega
+            · rw [hin']; omega
+            · rw [hin']; intro hc; have := a5 hc; omega
+            · rw [hin']; intro hc; have := a6 hc; omega
+            · rw [hin']; intro hc; have := a7 hc; omega
+          split at hr
+          · -- a `ret`: the decode unit stops here
+            simp only [pure, Except.pure, Except.ok.injEq, Prod.mk.injEq] at hr
+            obtain ⟨rfl, rfl, rfl⟩ := hr
+            refine ⟨hch, hlen, rfl, [⟨i, pcOf h0, pcOf h0 + ctx.sequenceID * 1000#32⟩], inside_add _ _ _, Or.inl ⟨rfl, hpcs', ?_⟩⟩
+            intro r hr
+            simp only [List.mem_singleton] at hr
+            subst hr; exact hj
+          · obtain ⟨t1, t2, t3, added, t4, t5⟩ := ih _ du' _ inBus' _ outBus' hch hlen hpcs' hr
+            refine ⟨t1, t2, t3, ⟨i, pcOf h0, pcOf h0 + ctx.sequenceID * 1000#32⟩ :: added, ?_, ?_⟩
+            · rw [t4, inside_add, List.append_assoc]; rfl
+            · rcases t5 with ⟨u1, u2, u3⟩ | ⟨u1, pre, j, u2, u3, u4⟩
+              · refine Or.inl ⟨u1, u2, ?_⟩
+                intro r hr
                 rcases List.mem_cons.mp hr with rfl | hr
                 · exact hj
                 · exact u3 r hr
-            · refine Or.inr ⟨u1, _ :: pre, j, by rw [u2]; rfl, u3, ?_⟩
-              intro r hr
-              rcases List.mem_cons.mp hr with rfl | hr
-              · exact hj
-              · exact u4 r hr
+              · refine Or.inr ⟨u1, _ :: pre, j, by rw [u2]; rfl, u3, ?_⟩
+                intro r hr
+                rcases List.mem_cons.mp hr with rfl | hr
+                · exact hj
+                · exact u4 r hr
 
 /-- every runner the decode unit adds carries the sequence id `pc + ctx.sequenceID * 1000` -/
 theorem decodeLoop_seq (app : App) (ctx : Model.Context) (c : Int) :
@@ -486,12 +494,19 @@ theorem decodeLoop_seq (app : App) (ctx : Model.Context) (c : Int) :
             rcases List.mem_append.mp hmem with h | h
             · exact Or.inl h
             · simp only [List.mem_singleton] at h; subst h; exact Or.inr rfl
-          · rcases ih _ du' _ inBus' _ outBus' hr r hmem with h | h
-            · rw [inside_add] at h
-              rcases List.mem_append.mp h with h | h
+          · split at hr
+            · simp only [pure, Except.pure, Except.ok.injEq, Prod.mk.injEq] at hr
+              obtain ⟨_, _, rfl⟩ := hr
+              rw [inside_add] at hmem
+              rcases List.mem_append.mp hmem with h | h
               · exact Or.inl h
               · simp only [List.mem_singleton] at h; subst h; exact Or.inr rfl
-            · exact Or.inr h
+            · rcases ih _ du' _ inBus' _ outBus' hr r hmem with h | h
+              · rw [inside_add] at h
+                rcases List.mem_append.mp h with h | h
+                · exact Or.inl h
+                · simp only [List.mem_singleton] at h; subst h; exact Or.inr rfl
+              · exact Or.inr h
 
 /-- the decode unit only appends to the buffer of the control bus -/
 theorem decodeLoop_queue (app : App) (ctx : Model.Context) (c : Int) :
@@ -526,7 +541,11 @@ theorem decodeLoop_queue (app : App) (ctx : Model.Context) (c : Int) :
           · simp only [pure, Except.pure, Except.ok.injEq, Prod.mk.injEq] at hr
             obtain ⟨_, _, rfl⟩ := hr
             rfl
-          · exact (ih _ du' _ inBus' _ outBus' hr).trans rfl
+          · split at hr
+            · simp only [pure, Except.pure, Except.ok.injEq, Prod.mk.injEq] at hr
+              obtain ⟨_, _, rfl⟩ := hr
+              rfl
+            · exact (ih _ du' _ inBus' _ outBus' hr).trans rfl
 
 /-! ### the control unit -/
 
